@@ -147,10 +147,17 @@ impl HotTier {
             inserted_at: Instant::now(),
         };
 
-        self.documents.write().insert(doc_id, doc);
+        // Lock order is documents -> stats everywhere else (get, delete, drain): read the size
+        // under the documents lock instead of re-acquiring it while holding the stats lock, which
+        // deadlocks against a concurrent delete/drain (documents.write held, waiting for stats).
+        let current_size = {
+            let mut docs = self.documents.write();
+            docs.insert(doc_id, doc);
+            docs.len()
+        };
 
         let mut stats = self.stats.write();
-        stats.current_size = self.documents.read().len();
+        stats.current_size = current_size;
         stats.total_inserts += 1;
     }
 
